@@ -99,8 +99,16 @@ impl<'a> Lexer<'a> {
     }
 
     fn block_comment(&mut self) -> TokenKind {
-        self.s.eat_until("*/");
-        self.s.eat_if("*/");
+        // block comments nest
+        let mut depth = 1;
+        while depth > 0 {
+            match self.s.eat() {
+                Some('*') if self.s.eat_if('/') => depth -= 1,
+                Some('/') if self.s.eat_if('*') => depth += 1,
+                Some(_) => {}
+                None => break,
+            }
+        }
         TokenKind::BlockComment
     }
 
